@@ -153,6 +153,10 @@ def _run_symbolic(h, eng):
     except E.LibraryRaise as e:
         out = dict(outputs=[], viol=[(f"raises: {e}", True)], raised=str(e))
     except (RuntimeError, ValueError, IndexError, TypeError, AssertionError, ZeroDivisionError, NotImplementedError, KeyError) as e:
+        tb = traceback.extract_tb(e.__traceback__)
+        if tb and tb[-1].filename.startswith(ROOT):
+            # thrown by harness/engine code, not by the library: never a verdict
+            raise E.HarnessError(f"internal {type(e).__name__}: {e} @ {_where(e)}")
         # an exception thrown by library/torch code on this path: the real call would raise too (confirmed by replay)
         out = dict(outputs=[], viol=[(f"raises: {type(e).__name__}: {str(e)[:200]} @ {_where(e)}", True)], raised=str(e))
     return out
